@@ -129,6 +129,10 @@ def regenerate(run):
             rc2, out2, err2 = sh([os.path.join(BUILD, "go2deep"), "-ctor", REPO, os.path.join(LEAN, "CacheVerif", "Generated", "DeepCtor.lean")])
             if run.pid == "C15":
                 run.oblige("go2deep -ctor: the goroutine newXsyncMap / newXsyncMapOf start and the finalizer they register have the shape the deep embedding interprets (if guard { go func() { ticker; defer Stop; for { select {...} } }() }; SetFinalizer(x, func(m) { close(m.f) }))", rc2 == 0, err2.strip())
+            # what the writing methods of Map / MapOf pass to doCompute: an obligation of the table-level properties
+            rc3, out3, err3 = sh([os.path.join(BUILD, "go2deep"), "-wrappers", REPO, os.path.join(LEAN, "CacheVerif", "Generated", "Wrappers.lean")])
+            if run.pid in ("C03", "C04", "C05", "C11"):
+                run.oblige("go2deep -wrappers: Store, LoadOrStore, LoadAndStore, LoadOrCompute, Compute, LoadAndDelete, Delete of map.go / mapof.go are one call of doCompute each (function argument and flags printed)", rc3 == 0, err3.strip())
             if rc != 0:
                 # keep the Lean project buildable for the other obligations: the generated files stay as they were
                 pass
